@@ -465,3 +465,80 @@ def _binding_scope(rng, L, earlier, atoms, out):
         return _conj([call('findall', V(L) if rng.random() < 0.5 else A('x'), ['fun', '=', f[2]], out()), use('after_findall')])
     f = first()
     return ite(['and', call('call', ['fun', '=', f[2]]), test()], use('then'), use('else'))
+
+# ------------------------------------------------------------------ 4. findall/3 with a bag that is not a fresh variable
+
+def gen_findall_bag_program(rng):
+    """findall(Template, Goal, Bag) where Bag is already (partly) instantiated when findall is called - a closed list, a partial
+    list, a list bound by an earlier goal - and shares unbound variables with Goal, with Template, or (through an instance that
+    contains a variable of the caller) with an answer; Goal has several answers and later answers depend on a caller variable
+    (tests with = and \\=, fact lookups keyed on it).  The standard reading - run Goal on its own, collect, then unify the list
+    with Bag - is what the model computes; every variable of the caller is exported through the head."""
+    atoms = ['a', 'b', 'c']
+    clauses = []
+    has_fv = False
+    # h(V, X): 2-3 clauses; the instance is V itself, a structure around it, or a constant; later clauses test V
+    for _ in range(rng.randrange(2, 4)):
+        pre = rng.choice([['true'], ['true'], eq(V('V'), A(rng.choice(atoms))), neq(V('V'), A(rng.choice(atoms))), call('k', V('V'), V('_'))])
+        val = rng.choice([V('V'), V('V'), F('f', V('V')), A(rng.choice(atoms)), A(rng.choice(atoms))])
+        body = eq(V('X'), val) if pre == ['true'] else ['and', pre, eq(V('X'), val)]
+        if rng.random() < 0.3:
+            body = ['and', eq(V('X'), val), pre] if pre != ['true'] else body
+        clauses.append(['h', [V('V'), V('X')], body])
+        has_fv = has_fv or val[0] == 'fun'
+    clauses.append(['g', [V('V'), V('V')], ['true']])
+    clauses.append(['g', [A(rng.choice(atoms)), A(rng.choice(atoms))], ['true']])
+    ks = [(rng.choice(atoms), rng.choice(['y', 'z'])) for _ in range(rng.randrange(2, 4))]
+    for a, b in ks:
+        clauses.append(['k', [A(a), A(b)], ['true']])
+    queries = []
+    for ti in range(rng.randrange(2, 5)):
+        name = 't%d' % ti
+        tail = V('T')
+        goal_kind = rng.choice(['h', 'h', 'g', 'k-tail', 'k', 'call'])
+        pre = []
+        if goal_kind == 'h': goal = F('h', V('V'), V('X'))
+        elif goal_kind == 'g': goal = F('g', V('V'), V('X'))
+        elif goal_kind == 'k-tail': goal = F('k', V('X'), V('T'))          # the goal binds the variable that is the bag's tail
+        elif goal_kind == 'k': goal = F('k', V('X'), V('V'))
+        else:
+            gf = rng.choice(['h', 'g'])
+            pre.append(eq(V('G'), F(gf, V('V'))))
+            goal = F('call', V('G'), V('X'))
+        # no occurs check in this engine: keep V out of the bag when an instance can be f(V) (V = f(V) is outside the property)
+        v_ok = not (has_fv and (goal_kind == 'h' or (goal_kind == 'call' and gf == 'h')))
+        tmpl = rng.choice([V('X'), V('X'), F('p', V('X')), F('p', V('X'), V('V'))])
+        used = []
+        def elem():
+            q = rng.random()
+            if q < 0.45: e = A(rng.choice(atoms))
+            elif q < 0.6: e = V('_')
+            elif q < 0.75: e = V('V') if v_ok else V('E')
+            elif q < 0.85: e = V('E')
+            else: e = V('X')
+            if e[1] != '_' and not v_ok:
+                # instances may be V and f(V): a variable that meets two of them would make V = f(V)
+                if used: e = V('_')
+                else: used.append(e[1])
+            if tmpl[0] == 'fun' and (e == V('V') or rng.random() < 0.8):
+                e = F('p', *([e] + [V('_')] * (len(tmpl[2]) - 1)))
+            return e
+        q = rng.random()
+        n_el = rng.choice([0, 1, 1, 2])
+        if q < 0.12: bag = V('T')                                           # control: a fresh bag
+        elif q < 0.55:
+            bag = tail
+            for e in reversed([elem() for _ in range(max(1, n_el))]):
+                bag = ['pair', e, bag]
+        else:
+            bag = _lst([elem() for _ in range(n_el)])
+        if rng.random() < 0.25 and bag[0] != 'var':
+            pre.append(eq(V('L'), bag)); bag = V('L')                       # the bag was bound by an earlier goal
+        goals = pre + [call('findall', tmpl, goal, bag)]
+        if rng.random() < 0.3:
+            goals.append(rng.choice([call('k', V('V'), V('_')), eq(V('V'), A(rng.choice(atoms)))]))
+        clauses.append([name, [V('V'), V('T'), V('E')], _conj(goals)])
+        queries.append([name, [V('Q0'), V('Q1'), V('Q2')]])
+        if rng.random() < 0.5:
+            queries.append([name, [A(rng.choice(atoms)), V('Q0'), V('Q1')]])
+    return {'clauses': clauses, 'queries': queries, 'shape': 'findall-bag'}
